@@ -27,3 +27,8 @@ claim("C12", "MIR control-dependence rules over `x == Variant` atoms (match and 
       "write is control-dependent on source() == Outer, that Age::Young returns before sequence allocation and submit, and that filter "
       "rejection / OnDisk advice produce a phantom whose last drop pipes it and skips release. Counting device writes is not decided.",
       "DESIGN.md §4 C12")
+claim("C17", "MIR closure-body rules on every hashbrown probe + control-dependence of disk hits on key equality",
+      "Decides for all 9 hash-table probe sites (memory index, in-flight table, write-queue keeper) that the equality closure compares the "
+      "probed element's key with the looked-up key and the rehash closure returns the stored hash; that every disk hit rebuilt in Store::load "
+      "is control-dependent on key.equivalent(loaded key) with the loaded payload coming from the engine; and that each memory operation "
+      "hashes once and uses that hash for shard choice. Behaviour over histories with restarts is not decided.", "DESIGN.md §4 C17")
